@@ -11,8 +11,9 @@ open ArgoVerif.Gen
 
 def exp : Nat := Consts.unitHashTableSizeExp.toNat
 def nul : UInt64 := UInt64.ofNat Consts.unitNull.toNat
-def npools : Nat := 5
+def npools : Nat := 7
 def nslots : Nat := 48
+def ntwin : Nat := 512   -- twin slot nslots+k belongs to work unit k (pools 5 and 6 share it)
 def unitSize : Nat := 16   -- sizeof(uunit) of the harness
 
 def isBuiltinPool (p : Nat) : Bool := p < 2
@@ -23,7 +24,7 @@ def slotOffsets : Array Nat := Id.run do
   let mut out : Array Nat := #[]
   let mut off := 64
   let mut fuel := 200000
-  while out.size < nslots && fuel > 0 do
+  while out.size < nslots + ntwin && fuel > 0 do
     fuel := fuel - 1
     let hv := UnitMap.hashIndex exp (UInt64.ofNat off)
     if (hv == 1 || hv == 2) && (out.isEmpty || off ≥ out.back! + unitSize) then
@@ -70,8 +71,9 @@ def flushEvents (d : DS) : DS × String :=
   ({ d with printed := d.a.log.length, used := used }, String.join (evs.map evStr))
 
 /-- what the harness's create_unit of pool `p` would return now -/
-def nextUnit (d : DS) (p : Nat) : UInt64 :=
+def nextUnit (d : DS) (p : Nat) (t : Nat) : UInt64 :=
   if d.failNext.getD p false then nul
+  else if p ≥ 5 then (if t < ntwin then UInt64.ofNat (slotOffsets.getD (nslots + t) 0) else nul)
   else match d.used.toList.idxOf? false with
     | some i => UInt64.ofNat (slotOffsets.getD i 0)
     | none => nul
@@ -108,7 +110,7 @@ def step (d : DS) (ws : List String) : DS × String :=
       if p < npools && (k == "ult" || k == "task") then
         let t := d.ts.size
         let before := d.a.log.length
-        let (a', rc) := initPool d.a t p (nextUnit d p) true
+        let (a', rc) := initPool d.a t p (nextUnit d p t) true
         let d1 := consumeFail { d with a := a' } before p
         if rc == .ok then
           let d2 := { d1 with ts := d1.ts.push { st := 1, kind := if k == "task" then 1 else 0 } }
@@ -156,7 +158,7 @@ def step (d : DS) (ws : List String) : DS × String :=
           | none => (d, false)
           | some p =>
             let before := d.a.log.length
-            match setAssoc d.a t p (nextUnit d p) true with
+            match setAssoc d.a t p (nextUnit d p t) true with
             | none => (d, false)
             | some (a', rc) =>
               let dd := consumeFail { d with a := a' } before p
@@ -187,7 +189,7 @@ def step (d : DS) (ws : List String) : DS × String :=
             | none => (d0, x)
             | some p =>
               let before := d0.a.log.length
-              match setAssoc d0.a t p (nextUnit d0 p) true with
+              match setAssoc d0.a t p (nextUnit d0 p t) true with
               | none => (d0, x)
               | some (a', rc) =>
                 let dd := consumeFail { d0 with a := a' } before p
@@ -202,8 +204,8 @@ def step (d : DS) (ws : List String) : DS × String :=
     | some t, some p =>
       if (op == "push" || op == "pushu" || op == "setpool") && validT d t 2 && p < npools then
         let before := d.a.log.length
-        let r := if op == "pushu" then unitSetAssoc d.a (d.a.thr t).unit p (nextUnit d p) true
-                 else setAssoc d.a t p (nextUnit d p) true
+        let r := if op == "pushu" then unitSetAssoc d.a (d.a.thr t).unit p (nextUnit d p t) true
+                 else setAssoc d.a t p (nextUnit d p t) true
         match r with
         | none => (d, s!"{op} abort")
         | some (a', rc) =>
@@ -213,7 +215,7 @@ def step (d : DS) (ws : List String) : DS × String :=
           (d3, s!"{op} {rcCode rc}" ++ ev)
       else if op == "revive" && validT d t 3 && p < npools then
         let before := d.a.log.length
-        match setAssoc d.a t p (nextUnit d p) true with
+        match setAssoc d.a t p (nextUnit d p t) true with
         | none => (d, "revive abort")
         | some (a', rc) =>
           let d1 := consumeFail { d with a := a' } before p
